@@ -428,7 +428,7 @@ def plain_world(world, values):
     return objs
 
 
-def asan_seq(so_asan, calls, world, values, timeout=120):
+def asan_seq(so_asan, calls, world, values, timeout=40):
     """Run calls on exact-size malloc'ed objects under AddressSanitizer. Returns ('asan', report) | ('ok', rets) | ('error', msg) | ('crash', sig) | ..."""
     import subprocess, tempfile
     def conv(args):
@@ -441,7 +441,7 @@ def asan_seq(so_asan, calls, world, values, timeout=120):
         return out
     spec = {'so': so_asan, 'objs': plain_world(world, values), 'calls': [[f, conv(a), r] for f, a, r in calls]}
     fd, path = tempfile.mkstemp(suffix='.json'); os.write(fd, json.dumps(spec).encode()); os.close(fd)
-    env = dict(os.environ, LD_PRELOAD=ASAN_RT, ASAN_OPTIONS='detect_leaks=0:exitcode=77:abort_on_error=0:allocator_may_return_null=1:detect_odr_violation=0', PYTHONMALLOC='malloc')
+    env = dict(os.environ, LD_PRELOAD=ASAN_RT, ASAN_OPTIONS='detect_leaks=0:exitcode=77:abort_on_error=0:allocator_may_return_null=1:detect_odr_violation=0:symbolize=0:fast_unwind_on_fatal=1', PYTHONMALLOC='malloc')
     try:
         p = subprocess.run([sys.executable, os.path.join(os.path.dirname(os.path.abspath(__file__)), 'asan_child.py'), path], env=env,
                            stdout=subprocess.PIPE, stderr=subprocess.PIPE, text=True, timeout=timeout)
